@@ -42,6 +42,7 @@ CALLER_TEMPLATES = [
 ]
 KROME = "naunet/reactions/kromereaction.py"
 UCL = "naunet/reactions/uclchemreaction.py"
+KEEP = ("_create_species",)        # helpers the rules treat as primitives when a parser is read in its folded form (pymodel.folded)
 
 
 def check(ctx):
@@ -539,7 +540,8 @@ def _windows_unconditional(ctx, pkg):
     """Every fixed-format parser stores float(<field>) into temp_min / temp_max -- no silent fallback to 'unbounded'."""
     from ..valueflow import Flow
     for cls in ("UMISTReaction", "KIDAReaction", "LEEDSReaction", "UCLCHEMReaction", "Reaction"):
-        fn = pkg.method(cls, "_parse_string")
+        pkg.method(cls, "_parse_string")
+        fn = pkg.folded(cls, "_parse_string", keep=KEEP)
         file = pkg.cls(cls).file
         fl = Flow(fn, file)
         for attr in ("temp_min", "temp_max"):
@@ -567,50 +569,6 @@ def _windows_unconditional(ctx, pkg):
                 ctx.unrec("R4", key, (file, st[-1].line), f"cannot see that self.{attr} is float(<field of the record>): {show(v)[:100]}")
 
 
-def class_constants_inlined(pkg, cls: str, fn):
-    """Copy of method `fn` of class `cls` in which every read of a class-level constant -- an attribute of the class (or a base)
-    bound once, in the class body, to a literal tuple / list / set / frozenset of constants, never assigned or mutated anywhere in
-    the package -- through self / cls / the class name is replaced by that literal; static loops over such constants are then
-    unrolled like loops over a literal written in place."""
-    import copy
-    from ..normalize import normalize_function
-    mro = pkg.mro(cls)
-    touched = set()
-    for mod in pkg.modules.values():
-        for n in ast.walk(mod):
-            if isinstance(n, ast.Attribute) and isinstance(n.ctx, (ast.Store, ast.Del)):
-                touched.add(n.attr)
-            elif isinstance(n, ast.Call) and isinstance(n.func, ast.Attribute) and isinstance(n.func.value, ast.Attribute) \
-                    and n.func.attr in ("append", "extend", "insert", "remove", "pop", "clear", "sort", "reverse", "add", "discard", "update"):
-                touched.add(n.func.value.attr)
-            elif isinstance(n, ast.Call) and isinstance(n.func, ast.Name) and n.func.id == "setattr":
-                touched.add("*")
-
-    def const_of(name):
-        if name in touched or "*" in touched:
-            return None
-        _, node = pkg.resolve_attr(cls, name)
-        if node is None:
-            return None
-        if isinstance(node, ast.Call) and isinstance(node.func, ast.Name) and node.func.id in ("tuple", "list", "frozenset", "set") and len(node.args) == 1 and not node.keywords:
-            node = node.args[0]
-        if isinstance(node, (ast.Tuple, ast.List, ast.Set)) and all(isinstance(e, ast.Constant) for e in node.elts):
-            return ast.Tuple(elts=[copy.deepcopy(e) for e in node.elts], ctx=ast.Load()) if not isinstance(node, ast.List) else copy.deepcopy(node)
-        return None
-
-    class P(ast.NodeTransformer):
-        def visit_Attribute(self, n):
-            self.generic_visit(n)
-            if isinstance(n.ctx, ast.Load) and isinstance(n.value, ast.Name) and (n.value.id in ("self", "cls") or n.value.id in mro):
-                c = const_of(n.attr)
-                if c is not None:
-                    return ast.copy_location(c, n)
-            return n
-    new = P().visit(copy.deepcopy(fn))
-    ast.fix_missing_locations(new)
-    return normalize_function(new)
-
-
 def _replace_chain(x):
     """x = base.replace(a1, b1)....replace(an, bn)  ->  (base, [(a, b), ...]); strip() links are looked through"""
     reps = []
@@ -629,184 +587,12 @@ def _krome_window_stores(ctx, pkg, fn):
     from ..valueflow import guards_satisfiable, strip_transparent
     kcls = pkg.cls("KROMEReaction")
 
+    # the parser in its folded form: extracted helpers put back, class-level token tables written in place, static loops over them
+    # (for / functools.reduce) unrolled, `key in TABLE` + setattr(self, TABLE[key], ..) spelled as the chain of plain stores
     def res(name):
         _, f = pkg.resolve("KROMEReaction", name)
-        return class_constants_inlined(pkg, "KROMEReaction", f) if f is not None and name.startswith("_") and not name.startswith("__") else None
-    fl = Flow(class_constants_inlined(pkg, "KROMEReaction", fn), KROME, resolver=res)
-    want_ops = {"<", ">", ".LE.", ".GE.", ".LT.", ".GT."}
-    want_none = {"N", "NONE", "N/A", "NO", ""}
-    stores = [f for f in fl.facts if f.kind == "attrstore" and f.target in ("temp_min", "temp_max") and f.extra.get("obj") == ("param", "self")]
-    if not stores:
-        return None
-    SELFP = ("param", "self")
-    decided = 0
-    seen = set()
-    for f in stores:
-        which = "tmin" if f.target == "temp_min" else "tmax"
-        other = "tmax" if which == "tmin" else "tmin"
-        W = (KROME, f.line)
-        # -- the column loop: for <keyword>, <field> in zip(<format keywords>, <fields of the line>)
-        lp = f.loops[-1] if f.loops else None
-        it = simp(lp.iter) if lp is not None else None
-        key = val = None
-        if it is not None and it[0] == "call" and it[1] == ("global", "zip") and len(it[2]) == 2 and not it[3]:
-            for a in it[2]:
-                a0 = strip_transparent(a)
-                if any(x == ("param", "react_string") for x in walk(a0)) and not any(isinstance(x, tuple) and x[:2] == ("attr", SELFP) for x in walk(a0)):
-                    val = ("elem", a0, lp.id)
-                elif any(isinstance(x, tuple) and len(x) == 3 and x[0] == "attr" and x[1] == SELFP and "format" in x[2] for x in walk(a0)):
-                    key = ("elem", a0, lp.id)
-        if key is None or val is None:
-            ctx.unrec("R4", f"KROME:{which}:column loop", W, "the store is not inside `for keyword, field in zip(<format keywords>, <fields of the line>)`")
-            continue
-        # -- guards: membership in a literal is the disjunction of equalities; `helper(..) is None` of a helper returning None on one arm only is that arm's condition
-        def lit_set(x):
-            return [e[1] for e in x[1]] if x[0] in ("list", "tuple", "set") and all(e[0] == "const" for e in x[1]) else None
-
-        def rewrite(c):
-            c = simp(c)
-            if c[0] == "cmp" and len(c[1]) == 1 and c[1][0] == "In" and c[2][0] == key and lit_set(c[2][1]) is not None:
-                alts = tuple(("cmp", ("Eq",), (key, ("const", k_))) for k_ in lit_set(c[2][1]))
-                return alts[0] if len(alts) == 1 else ("bool", "Or", alts)
-            if c[0] == "cmp" and len(c[1]) == 1 and c[1][0] in ("Is", "Eq") and c[2][1] == ("const", None) and c[2][0][0] == "phi":
-                ph = c[2][0]
-                if ph[2] == ("const", None) and ph[3][0] == "call":
-                    return rewrite(ph[1])
-                if ph[3] == ("const", None) and ph[2][0] == "call":
-                    return ("unop", "Not", rewrite(ph[1]))
-            if c[0] == "bool":
-                return ("bool", c[1], tuple(rewrite(x) for x in c[2]))
-            if c[0] == "unop" and c[1] == "Not":
-                return ("unop", "Not", rewrite(c[2]))
-            return c
-        from ..valueflow import split_guard
-        G = [g2 for c, pol in f.guards for g2 in split_guard((rewrite(c), pol))]
-        keyatoms = sorted({x for c, _ in G for x in walk(c) if isinstance(x, tuple) and len(x) == 3 and x[0] == "cmp" and x[1] == ("Eq",) and x[2][0] == key and x[2][1][0] == "const"}, key=repr)
-        excl = [(("bool", "And", (a, b)), False) for i, a in enumerate(keyatoms) for b in keyatoms[i + 1:]]
-        KG = [(c, pol) for c, pol in G if any(x in keyatoms for x in walk(c))]
-        is_ = lambda k_: ("cmp", ("Eq",), (key, ("const", k_)))
-        implies = lambda k_: not guards_satisfiable(KG + excl, [(is_(k_), False)])
-        kk = f"KROME:{which}:target"
-        if implies(which):
-            ctx.ok("R4", kk, W, f"self.{f.target} is stored only where the column keyword is {which!r}")
-        elif implies(other):
-            ctx.bad("R4", kk, W, f"the {other} field feeds self.{f.target}: the window guard is built from the wrong limit", expected=f"keyword == {which!r}", found=f"keyword == {other!r}")
-            continue
-        else:
-            ctx.unrec("R4", kk, W, f"cannot decide from the guards of the store which column feeds self.{f.target}: " + "; ".join(f"{show(c)[:60]}={pol}" for c, pol in KG)[:200])
-            continue
-        # -- the stored value on this path
-        assume = {c: pol for c, pol in G}
-        v = simp(peval(simp(f.value), assume))
-        if not (v[0] == "call" and v[1] == ("global", "float") and len(v[2]) == 1 and not v[3]):
-            return None
-        base, reps = _replace_chain(v[2][0])
-        if base != val:
-            if any(isinstance(x, tuple) and x and x[0] in ("carried", "after", "acc", "unknown") for x in walk(base)) or not reps:
-                return None
-            ctx.bad("R4", f"KROME:{which}:field", W, f"self.{f.target} is decoded from {show(base)[:80]}, not from the field paired with the keyword {which!r}", found=show(base)[:100])
-            continue
-        decided += 1
-        seen.add(which)
-        ops = {a for a, b in reps if b == ""}
-        ctx.check(want_ops <= ops, "R4", f"KROME:{which}:operator tokens", W,
-                  "every comparison token of the KROME syntax is stripped before float()", expected=str(sorted(want_ops)), found=str(sorted(ops)))
-        ctx.check(any(a in ("d", "D") and b in ("e", "E") for a, b in reps), "R4", f"KROME:{which}:d-exponent", W, "Fortran d-exponents are converted before float()",
-                  found=str([r_ for r_ in reps if r_[1] != ""]))
-        # -- no-bound spellings: the path excludes <field>.upper() in {N, NONE, N/A, NO, ""}
-        nones, seen_test, other_tests = set(), False, []
-        for c, pol in G:
-            if c[0] == "cmp" and len(c[1]) == 1 and c[1][0] == "In" and lit_set(c[2][1]) is not None and not pol:
-                left, _ = _replace_chain(c[2][0])
-                if left == ("meth", val, "upper", (), ()) or (left[0] == "meth" and left[2] == "upper" and _replace_chain(left[1])[0] == val):
-                    nones |= set(lit_set(c[2][1]))
-                    seen_test = True
-                    continue
-            if c[0] == "cmp" and c[1] == ("Eq",) and c[2][0] == val and c[2][1] == ("const", "") and not pol:
-                nones.add("")
-                continue
-            if any(x == val for x in walk(c)) and not any(x in keyatoms for x in walk(c)):
-                other_tests.append(c)
-        kk = f"KROME:{which}:no-bound spellings"
-        if want_none <= nones:
-            ctx.ok("R4", kk, W, "N / NONE / N/A / NO / empty keep the default (unbounded)")
-        elif seen_test or not other_tests:
-            ctx.bad("R4", kk, W, "N / NONE / N/A / NO / empty must keep the default (unbounded): a spelling that is not excluded reaches float()", expected=str(sorted(want_none)), found=str(sorted(nones)))
-        else:
-            ctx.unrec("R4", kk, W, "the no-bound spellings are tested in a way this rule cannot decide: " + "; ".join(show(c)[:60] for c in other_tests)[:160])
-    if decided:
-        for which in ("tmin", "tmax"):
-            if which not in seen and not any(o.rule == "R4" and o.key.startswith(f"KROME:{which}:") for o in ctx.obs):
-                ctx.bad("R4", f"KROME:{which}:target", (KROME, fn.lineno), f"the {which} column is never stored into self.temp_{which[1:]}")
-    return decided
-
-
-def class_constants_inlined(pkg, cls: str, fn):
-    """Copy of method `fn` of class `cls` in which every read of a class-level constant -- an attribute of the class (or a base)
-    bound once, in the class body, to a literal tuple / list / set / frozenset of constants, never assigned or mutated anywhere in
-    the package -- through self / cls / the class name is replaced by that literal; static loops over such constants are then
-    unrolled like loops over a literal written in place."""
-    import copy
-    from ..normalize import normalize_function
-    mro = pkg.mro(cls)
-    touched = set()
-    for mod in pkg.modules.values():
-        for n in ast.walk(mod):
-            if isinstance(n, ast.Attribute) and isinstance(n.ctx, (ast.Store, ast.Del)):
-                touched.add(n.attr)
-            elif isinstance(n, ast.Call) and isinstance(n.func, ast.Attribute) and isinstance(n.func.value, ast.Attribute) \
-                    and n.func.attr in ("append", "extend", "insert", "remove", "pop", "clear", "sort", "reverse", "add", "discard", "update"):
-                touched.add(n.func.value.attr)
-            elif isinstance(n, ast.Call) and isinstance(n.func, ast.Name) and n.func.id == "setattr":
-                touched.add("*")
-
-    def const_of(name):
-        if name in touched or "*" in touched:
-            return None
-        _, node = pkg.resolve_attr(cls, name)
-        if node is None:
-            return None
-        if isinstance(node, ast.Call) and isinstance(node.func, ast.Name) and node.func.id in ("tuple", "list", "frozenset", "set") and len(node.args) == 1 and not node.keywords:
-            node = node.args[0]
-        if isinstance(node, (ast.Tuple, ast.List, ast.Set)) and all(isinstance(e, ast.Constant) for e in node.elts):
-            return ast.Tuple(elts=[copy.deepcopy(e) for e in node.elts], ctx=ast.Load()) if not isinstance(node, ast.List) else copy.deepcopy(node)
-        return None
-
-    class P(ast.NodeTransformer):
-        def visit_Attribute(self, n):
-            self.generic_visit(n)
-            if isinstance(n.ctx, ast.Load) and isinstance(n.value, ast.Name) and (n.value.id in ("self", "cls") or n.value.id in mro):
-                c = const_of(n.attr)
-                if c is not None:
-                    return ast.copy_location(c, n)
-            return n
-    new = P().visit(copy.deepcopy(fn))
-    ast.fix_missing_locations(new)
-    return normalize_function(new)
-
-
-def _replace_chain(x):
-    """x = base.replace(a1, b1)....replace(an, bn)  ->  (base, [(a, b), ...]); strip() links are looked through"""
-    reps = []
-    while x[0] == "meth" and ((x[2] == "replace" and len(x[3]) == 2 and not x[4] and all(a[0] == "const" and isinstance(a[1], str) for a in x[3])) or (x[2] == "strip" and not x[3])):
-        if x[2] == "replace":
-            reps.append((x[3][0][1], x[3][1][1]))
-        x = x[1]
-    return x, reps
-
-
-def _krome_window_stores(ctx, pkg, fn):
-    """The KROME window columns, decided on the reconstructed values (valueflow) -- independent of how the column chain is spelled:
-    every store into self.temp_min / self.temp_max happens on a path that implies the column keyword is tmin / tmax respectively, the
-    stored value is float(<the field of the same column>) after every comparison token was replaced by "" and d by e, and the path
-    excludes the no-bound spellings.  -> number of stores decided, or None when the stores are not in a form this rule understands."""
-    from ..valueflow import guards_satisfiable, strip_transparent
-    kcls = pkg.cls("KROMEReaction")
-
-    def res(name):
-        _, f = pkg.resolve("KROMEReaction", name)
-        return class_constants_inlined(pkg, "KROMEReaction", f) if f is not None and name.startswith("_") and not name.startswith("__") else None
-    fl = Flow(class_constants_inlined(pkg, "KROMEReaction", fn), KROME, resolver=res)
+        return pkg.folded("KROMEReaction", name, keep=KEEP) if f is not None and name.startswith("_") and not name.startswith("__") and name not in KEEP else None
+    fl = Flow(pkg.folded("KROMEReaction", "_parse_string", keep=KEEP), KROME, resolver=res)
     want_ops = {"<", ">", ".LE.", ".GE.", ".LT.", ".GT."}
     want_none = {"N", "NONE", "N/A", "NO", ""}
     stores = [f for f in fl.facts if f.kind == "attrstore" and f.target in ("temp_min", "temp_max") and f.extra.get("obj") == ("param", "self")]
@@ -938,7 +724,8 @@ def _r4(ctx):
         ctx.check(v is not None and v <= 0, "R4", f"Reaction.__init__:{a} default", ("naunet/reactions/reaction.py", init.lineno),
                   "a reaction without window carries a non-positive bound (= unbounded)", found=repr(v))
     # UCLCHEM freeze window
-    ufn = pkg.method("UCLCHEMReaction", "_parse_string")
+    pkg.method("UCLCHEMReaction", "_parse_string")
+    ufn = pkg.folded("UCLCHEMReaction", "_parse_string", keep=KEEP)
     ctx.saw(UCL, "UCLCHEMReaction._parse_string")
     from ..valueflow import Flow
     ufl = Flow(ufn, UCL)
